@@ -18,6 +18,9 @@ pub struct MmapCase {
     /// a giant record (and where it goes among the others): frequencies next to 0 and 1, counts beyond 2^16
     #[serde(default)]
     pub giant: Option<(gen::Giant, u16)>,
+    /// container of the input file (the mapping is sized by a pre-pass over the file)
+    #[serde(default)]
+    pub cont: Option<Container>,
 }
 
 pub fn check_mmap(c: &MmapCase) -> Verdict {
@@ -30,6 +33,8 @@ pub fn check_mmap(c: &MmapCase) -> Verdict {
         v.class("mmap-giant");
     }
     let c = &MmapCase { recs: recs_all, giant: None, ..c.clone() };
+    let cont = c.cont.clone().unwrap_or_else(Container::plain_fasta);
+    v.class(cont.label());
     let n = c.recs.len();
     v.nontrivial = n >= 2 && (c.delim.len() != 1 || c.header || c.threads >= 2);
     v.class(format!("delim-len-{}", c.delim.len()));
@@ -37,7 +42,7 @@ pub fn check_mmap(c: &MmapCase) -> Verdict {
     v.class(match &c.sched { Sched::Free => "sched-free", Sched::Perturb(_) => "sched-perturb", Sched::Controlled(_) => "sched-controlled" });
     v.class(format!("k={}", c.k));
     let dir = crate::scratch_dir();
-    let input = io::write_input(dir.path(), "in", &c.recs, &Container::plain_fasta());
+    let input = io::write_input(dir.path(), "in", &c.recs, &cont);
     let out = dir.path().join("out.txt");
     let cfg = OligoCfg { k: c.k, threads: c.threads, memory: 4usize << 30, writer: Writer::Mmap, norm: true, header: c.header, delim: c.delim.clone() };
     let r = oligo_exec::exec(&io::path_str(&input), &io::path_str(&out), &cfg, &c.sched);
@@ -117,9 +122,9 @@ impl Leg for Mmap {
         (prop_oneof![10 => 1usize..=6, 1 => 7usize..=8], delim_strategy(), any::<bool>(), gen::threads_strategy())
             .prop_flat_map(move |(k, delim, header, threads)| {
                 let p = RecParams { max_records: if k >= 7 { 3 } else { max_records }, scale: k, max_len: 40, degenerate_w: 2, bounds: [k, 0, 0], nuc_only: false };
-                (gen::records(p), gen::sched_strategy(true, 2 * max_records)).prop_map(move |(recs, sched)| {
+                (gen::records_in_container(p), gen::sched_strategy(true, 2 * max_records)).prop_map(move |((recs, cont), sched)| {
                     let threads = if matches!(sched, Sched::Controlled(_)) { ((threads - 1) % 6) + 1 } else { threads };
-                    MmapCase { recs, k, delim: delim.clone(), header, threads, sched, giant: None }
+                    MmapCase { recs, k, delim: delim.clone(), header, threads, sched, giant: None, cont: Some(cont) }
                 })
             })
             .boxed()
@@ -140,7 +145,7 @@ impl Leg for MmapGiant {
             .prop_flat_map(move |(k, delim, header, threads, at)| {
                 let p = RecParams { max_records: 4, scale: k, max_len: 40, degenerate_w: 2, bounds: [k, 0, 0], nuc_only: false };
                 (gen::records(p), prop_oneof![1 => gen::giant(60_000, hi, b"ACGTN".to_vec()), 1 => gen::giant_near_one(hi.min(3_400_000))])
-                    .prop_map(move |(recs, g)| MmapCase { recs, k, delim: delim.clone(), header, threads, sched: Sched::Free, giant: Some((g, at)) })
+                    .prop_map(move |(recs, g)| MmapCase { recs, k, delim: delim.clone(), header, threads, sched: Sched::Free, giant: Some((g, at)), cont: None })
             })
             .boxed()
     }
